@@ -214,6 +214,9 @@ func checkC11(c *Ctx) {
 	// ---- O2 point-in-time reads ----------------------------------------------------------------
 	c.checkSnapshotReads("O2 reads")
 	c.checkTimerSinkAppendOnly("O2 sink-append-only")
+	// every metric handle a scope hands out is the registered one (the snapshot walks the registered
+	// metrics only; a test scope's timer keeps its values in the timer object) - shared with C09 O1
+	c.checkDoubleChecked("O1 registered-metrics", c.newLockEngine())
 	// one entry per metric needs one scope per identity: the root must be found in whichever shard a
 	// derivation ending in the root's identity hashes to (shared with C05 O1)
 	c.checkRootInEveryShard("O1 root-in-every-shard")
